@@ -5,6 +5,12 @@ import os
 
 VERIF = os.path.dirname(os.path.dirname(os.path.abspath(__file__)))
 
+READER_SRC = (" Translation tie (C06_*_from_source, props/C06_src.v): UBXReader's stream-reading methods (_read_bytes, _read_line, "
+              "_parse_ubx, _parse_nmea, _parse_rtcm3, _do_error, read) are translated from /repo on every run (harness/py2coq_io.py, "
+              "a state-and-exception monad in coq/model/PyMini.v: trusted) and proved equal to this model - read() as a whole "
+              "to the iteration of the model's step (C06_read_from_source). A method the translator cannot handle, or one whose "
+              "statements were re-arranged so that the proof script no longer follows it, is reported in the evidence and tied by "
+              "the correspondence alone on that run.")
 READER_NOTE = ("Trusted: Coq kernel (Print Assumptions: closed under the global context); the hand-written Gallina "
                "model of UBXReader.read/_parse_*/_read_bytes/_read_line/_do_error (coq/model/Reader.v) tied to "
                "ubxreader.py by differential runs (READ/SOCK commands) in which the answers of the real protocol "
@@ -75,13 +81,13 @@ CHECKS = {
              "preamble-free noise, every configuration with errors not raised and every behaviour of the three parsers, "
              "the reader yields exactly the accepted, unfiltered frames in order as (raw, parser result) and ends with "
              "nothing unread; a rejected frame changes nothing after it. Unbounded (induction on the chunk list).",
-        note=READER_NOTE, ref="DESIGN.md §6 C06"),
+        note=READER_NOTE + READER_SRC, ref="DESIGN.md §6 C06"),
     "C07": dict(
         technique="Coq proof (step-consumes invariant + induction on fuel, for all byte strings) + exhaustive short-string correspondence",
         text="C07_slices / C07_eof_exact / C07_terminates for every byte string, configuration and parser behaviour: "
              "delivered raws are in-order non-overlapping slices each starting with a preamble byte; with errors not "
              "raised iteration ends only with the stream exhausted; the loop never needs more than |s|+1 iterations.",
-        note=READER_NOTE, ref="DESIGN.md §6 C07"),
+        note=READER_NOTE + READER_SRC, ref="DESIGN.md §6 C07"),
     "C08": dict(
         technique="Coq proof (exception-set analysis of every primitive and of the definition walk by nested induction, closed by a finite table obligation; reader termination by a consumption measure) + correspondence on every definition x every payload length",
         text="C08_parse_no_foreign: for EVERY byte string, msgmode, validate and bitfield setting, with the shipped "
@@ -97,7 +103,7 @@ CHECKS = {
         text="C09_prefix for every byte string and every cut position: the cut run's items are a prefix of the uncut "
              "run's; it raises nothing and leaves nothing unread (C09_no_raise); no partial frame (C09_no_partial); on "
              "clean streams every frame wholly before the cut is delivered (C09_clean); C09_prefix_socket: the cut stream arriving through a socket (any segmentation, close/timeout/OSError) still yields a prefix and ends.",
-        note=READER_NOTE, ref="DESIGN.md §6 C09"),
+        note=READER_NOTE + READER_SRC, ref="DESIGN.md §6 C09"),
     "C10": dict(
         technique="Coq proof (SocketWrapper state machine refines the abstract byte stream; simulation with the file reader) + correspondence over all segmentations + real socketpair run",
         text="C10_read_exact, C10_readline and C10_refines_file: for every segmentation of the bytes into recv() "
@@ -112,7 +118,7 @@ CHECKS = {
              "with parsing=False the raw sequence is unchanged (over streams whose framed candidates are accepted) and "
              "every parsed value is None. C11_filter_any_stream / C11_parsing_off_any_stream: the same for every stream "
              "implementation whose read(n) returns at most n bytes (any state type, any fuel; short reads allowed).",
-        note=READER_NOTE, ref="DESIGN.md §6 C11"),
+        note=READER_NOTE + READER_SRC, ref="DESIGN.md §6 C11"),
     "C13": dict(
         technique="Coq proof (immutability flag set on every constructor path) + purity by construction; runtime part by fd-level capture, table digests, histories and threads",
         text="C13_setattr / C13_delattr / C13_parsed_immutable: every attribute assignment or deletion on any "
@@ -156,7 +162,7 @@ CHECKS = {
         text="C12_ignore_log, C12_handler (handler called exactly once per rejection, in order, with that exception, "
              "never otherwise), C12_raise (items up to the first rejection, then exactly that exception) for every byte "
              "string, mask, parsing flag and parser behaviour; C12_*_any_stream: the same three statements for EVERY stream implementation (any state type, any read/readline functions - short reads while data follows, sockets, serial ports - any fuel).",
-        note=READER_NOTE, ref="DESIGN.md §6 C12"),
+        note=READER_NOTE + READER_SRC, ref="DESIGN.md §6 C12"),
 }
 
 PENDING = "check under construction in this session (model + theorems planned in DESIGN.md §6); not yet claimed"
